@@ -199,7 +199,7 @@ func c18GenProf(r *Rng, hot, marker string, tags, clean bool) *c18Prof {
 			s.Stack = append(s.Stack, r.Intn(len(d.Locs)))
 		}
 		for j := 0; j < nt; j++ {
-			s.Values = append(s.Values, int64(1+r.Intn(1000)))
+			s.Values = append(s.Values, c18Value(r))
 		}
 		if tags && r.Chance(70) {
 			nl := 1 + r.Intn(2)
@@ -217,6 +217,16 @@ func c18GenProf(r *Rng, hot, marker string, tags, clean bool) *c18Prof {
 			}
 		}
 		d.Samples = append(d.Samples, s)
+		if c18ValMode == "cancel" && r.Chance(60) {
+			// a twin on the same stack with the opposite weight: the entries of the stack (or some
+			// of them) end up with flat = cum = 0, as in a diff of two equal profiles
+			t := s
+			t.Values = nil
+			for _, v := range s.Values {
+				t.Values = append(t.Values, -v)
+			}
+			d.Samples = append(d.Samples, t)
+		}
 	}
 	if is("comment") || r.Chance(30) {
 		d.Comments = append(d.Comments, c18Str(r, []string{"a comment", "built with -O2"}, is("comment"), marker))
@@ -242,6 +252,10 @@ func c18GenOpts(r *Rng, d *c18Prof, hot string) c18Opts {
 	if len(d.Types) > 1 && r.Chance(60) {
 		o.SampleIndex = len(d.Types) - 1
 	}
+	if r.Chance(50) {
+		o.Unit = c18OutUnits[r.Intn(len(c18OutUnits))]
+	}
+	o.DropNeg = r.Chance(15)
 	return o
 }
 
@@ -273,6 +287,12 @@ func (o c18Opts) args() []string {
 	}
 	if o.Compact {
 		a = append(a, "-compact_labels")
+	}
+	if o.Unit != "" {
+		a = append(a, "-unit="+o.Unit)
+	}
+	if o.DropNeg {
+		a = append(a, "-drop_negative")
 	}
 	a = append(a, fmt.Sprintf("-sample_index=%d", o.SampleIndex))
 	return a
@@ -344,6 +364,14 @@ func c18GenGraph(r *Rng, hot, marker string) *c18Graph {
 		}
 		g.Nodes = append(g.Nodes, n)
 	}
+	if r.Chance(15) {
+		// nodes that edges point at but that are not listed in the graph
+		g.Unlisted = 1 + r.Intn(2)
+		for i := 0; i < g.Unlisted; i++ {
+			g.Nodes = append(g.Nodes, c18Node{Name: c18Str(r, c18FuncBases, is("name"), marker)})
+		}
+		nn += g.Unlisted
+	}
 	ne := r.Intn(2 * nn)
 	seen := map[[2]int]bool{}
 	for i := 0; i < ne; i++ {
@@ -356,6 +384,42 @@ func c18GenGraph(r *Rng, hot, marker string) *c18Graph {
 	}
 	return g
 }
+
+// c18ValMode selects how sample values are drawn (set by the runner per case, like c18LookPct):
+//   pos     1..1000
+//   small   0..3 with many zeros, and now and then a large value: nodes whose cost is zero or
+//           truncates to zero in a coarse output unit
+//   signed  -1000..1000 incl. zero (diff-like profiles)
+//   cancel  positive, with exactly cancelling twins on the same stack
+var c18ValMode = "pos"
+
+func c18Value(r *Rng) int64 {
+	switch c18ValMode {
+	case "small":
+		if r.Chance(15) {
+			return int64(1+r.Intn(5)) << uint(10+r.Intn(25))
+		}
+		return int64(r.Intn(4))
+	case "signed":
+		if r.Chance(15) {
+			return 0
+		}
+		return int64(r.Intn(2001)) - 1000
+	}
+	return int64(1 + r.Intn(1000))
+}
+
+// c18SetVals draws the value mode; callgrind costs must be non-negative (Number is unsigned).
+func c18SetVals(r *Rng, callgrind bool) string {
+	modes := []string{"pos", "pos", "small", "signed", "cancel"}
+	if callgrind {
+		modes = []string{"pos", "small", "small"}
+	}
+	c18ValMode = modes[r.Intn(len(modes))]
+	return c18ValMode
+}
+
+var c18OutUnits = []string{"", "", "minimum", "MB", "GB", "kB", "bytes", "hours", "seconds", "ms", "ns", "count", "auto", "widgets"}
 
 // c18SetLook draws the look-alike mode of a case: none, sprinkled, or heavy.
 func c18SetLook(r *Rng) int {
